@@ -112,8 +112,10 @@ def run_execution(spec, repo_src, shm):
 def _run(spec, repo_src, root):
     import tempfile
 
+    probes = {"start": [id(object()), id([]), id({}), id("x" * 40)]}
     world = spec.get("world", {})
     materialise(world, root)
+    probes["after_world"] = [id(object()), id([]), id({})]
     T = os.path.join(root, "T")
     X = os.path.join(root, "X")
     tempfile.tempdir = os.path.join(root, "tmp")
@@ -129,6 +131,9 @@ def _run(spec, repo_src, root):
     # heap shift: perturb id() order crudely
     _keep = [object() for _ in range(int(spec.get("heap_shift", 0)))]
 
+    # no forced GIL hand-overs: threads switch only where one blocks, i.e. exactly at the scheduler's baton hand-overs
+    # (a timer-driven switch inside a hand-over window would reorder allocations of the two threads)
+    sys.setswitchinterval(1000.0)
     sim = sched.Sim(spec.get("sched"), repo_src)
     sim.plugins = bool(spec.get("plugins"))
     sim.real_pool = bool(spec.get("real_pool"))
@@ -152,6 +157,7 @@ def _run(spec, repo_src, root):
     sys.stdout = io.TextIOWrapper(io.FileIO(1, "w", closefd=False), encoding="utf-8", errors="backslashreplace", line_buffering=True)
     sys.stderr = io.TextIOWrapper(io.FileIO(2, "w", closefd=False), encoding="utf-8", errors="backslashreplace", line_buffering=True)
 
+    probes["before_run"] = [id(object()), id([]), id({})]
     argv = [_subst(a, root) for a in spec.get("argv", [])]
     sys.argv = ["codemodder"] + argv
     status = None
@@ -184,6 +190,7 @@ def _run(spec, repo_src, root):
             sim.drain()
         except BaseException:
             pass
+    probes["after_run"] = [id(object()), id([]), id({}), id((1, 2, 3)), id(3.14159 * len(argv))]
     fs.active = False
     sched.CURRENT = None
     try:
@@ -270,6 +277,9 @@ def _run(spec, repo_src, root):
         "events": norm_paths(sim.events if spec.get("keep_events") else sim.events[:60]),
         "coarse_trace_digest": hashlib.sha256(repr(coarse).encode()).hexdigest()[:16],
         "decisions": sim.decisions if len(sim.decisions) <= 20000 else None,
+        "debug_lines": sim.debug_lines,
+        "heap_probes": probes,
+        "debug_ids": sim.debug_ids,
         "n_decisions": len(sim.decisions),
         "stats": {
             "steps": sim.steps,
